@@ -292,6 +292,34 @@ def main():
                 violations.append({"what": "wrong code for long sequence: %r" % (e.error_code,), "value": type(big).__name__})
         except BaseException as e:
             violations.append({"what": "low-level exception on long sequence %s" % type(e).__name__, "value": type(big).__name__})
+    # ... wherever the long sequence sits: under a list / tuple element, a dict value, a dataclass field, two levels deep;
+    # with the default bound and with a lowered one
+    import dataclasses
+    from dds import set_option
+
+    @dataclasses.dataclass
+    class _Holder:
+        items: object
+
+    def nestings(big):
+        return [[big], (1, big), [[big]], {"k": big}, [{"k": big}], {"a": [big]}, _Holder(big), [_Holder(big)], (_Holder([big]),), [1, [2, (3, big)]]]
+
+    for limit in (maxseq, 3):
+        set_option("hash.max_sequence_size", limit)
+        try:
+            for big in ([0] * (limit + 1), tuple([0] * (limit + 1)), {i: i for i in range(limit + 1)}):
+                for v in nestings(big):
+                    evals += 1
+                    try:
+                        dds_hash(v)
+                        violations.append({"what": "a sequence longer than the bound %d nested in a value is accepted" % limit, "value": repr(v)[:80]})
+                    except DDSException as e:
+                        if e.error_code != DDSErrorCode.SEQUENCE_TOO_LONG:
+                            violations.append({"what": "nested long sequence (bound %d): wrong code %r" % (limit, e.error_code), "value": repr(v)[:80]})
+                    except BaseException as e:
+                        violations.append({"what": "low-level exception %s (%s) for a sequence longer than the bound %d nested in a value" % (type(e).__name__, str(e)[:60], limit), "value": repr(v)[:80] if limit == 3 else "%s holding a %s of length %d" % (type(v).__name__, type(big).__name__, len(big))})
+        finally:
+            set_option("hash.max_sequence_size", maxseq)
     # pairwise collisions
     by_hash = {}
     for v, h in hashes:
